@@ -205,3 +205,145 @@ theorem innerStatementsW {f : Nat} (ih : SpecsW f) (acc : Node) (p : P) (hc : Cu
     · exact Sat.pure ⟨hc1, [], Ext.refl (kw_statements _)⟩
 
 end Ecal.Parse
+
+namespace Ecal.Parse
+open Ecal.Lex
+
+theorem shapeOk_one {nm : String} {s : Sig} (h : kindOf nm = .one) : shapeOk nm [s] = true := by
+  simp [shapeOk, h]
+
+/-- `guard(c)` / `compaccess(c)`: constructed node with exactly one well-formed child -/
+theorem wf_guard1 (bb : Nat) {c : Node} (hc : WellFormed c = true) :
+    WellFormed ((instanceOf bb T_GUARD none).add (some c)) = true ∧
+    ((instanceOf bb T_GUARD none).add (some c)).name = "guard" ∧
+    ((instanceOf bb T_GUARD none).add (some c)).children.length = 1 := by
+  rw [inst_guard]
+  refine ⟨(wf_iff _).2 ⟨(KW.mk0 _ _ _ _ _ _ (by decide)).add hc, ?_⟩, by rw [Node.add_name]; rfl, by rw [Node.add_children]; rfl⟩
+  simp only [Node.add_name, sigs_add]
+  exact shapeOk_one (by decide)
+
+theorem wf_compaccess1 (bb : Nat) {c : Node} (hc : WellFormed c = true) :
+    WellFormed ((instanceOf bb T_COMPACCESS none).add (some c)) = true ∧
+    ((instanceOf bb T_COMPACCESS none).add (some c)).name = "compaccess" ∧
+    ((instanceOf bb T_COMPACCESS none).add (some c)).children.length = 1 := by
+  rw [inst_compaccess]
+  refine ⟨(wf_iff _).2 ⟨(KW.mk0 _ _ _ _ _ _ (by decide)).add hc, ?_⟩, by rw [Node.add_name]; rfl, by rw [Node.add_children]; rfl⟩
+  simp only [Node.add_name, sigs_add]
+  exact shapeOk_one (by decide)
+
+theorem braced_runW {f : Nat} (ih : SpecsW f) (p : P) (hc : Cur p) :
+    Sat (withBraceBlock (run f 0)) p (fun a p' => Cur p' ∧ p'.toks.length < p'.toks.length + 1 ∧ ResW a) ET := by
+  unfold withBraceBlock
+  apply Sat.bind (Sat.modifyP (Q := fun _ q => Cur q) hc) (fun _ h => h)
+  intro _ q hq
+  apply Sat.bind (E1 := fun _ => False) (Q1 := fun r q' => match r with
+      | .ok a => Cur q' ∧ ResW a
+      | .error _ => True) _ (fun _ h => h.elim)
+  · rintro r q' hr
+    apply Sat.bind (Sat.modifyP (Q := fun _ q'' => match r with
+      | .ok a => Cur q'' ∧ ResW a
+      | .error _ => True) (by cases r <;> exact hr)) (fun _ h => h)
+    rintro _ q'' hr'
+    cases r with
+    | ok a => exact Sat.pure ⟨hr'.1, by omega, hr'.2⟩
+    | error e => exact Sat.throw trivial
+  · exact Sat.attempt (E' := ET) (ih.run 0 q hq) (fun e _ _ => trivial)
+
+theorem guardAndStatementsW {f : Nat} (ih : SpecsW f) (acc : Node) (p : P) (hc : Cur p) (hacc : KW acc) :
+    Sat (guardAndStatements (f+1) acc) p
+      (fun r p' => Cur p' ∧ ∃ k, Ext acc r [("guard", 1), ("statements", k)]) ET := by
+  rw [guardAndStatements]
+  wpr (braced_runW ih p hc)
+  intro e p1 ⟨hc1, _, hr1⟩
+  smk
+  obtain ⟨hwf, hname, hlen⟩ := wf_guard1 p1.braceBlock hr1.2.1
+  wlast (ih.innerStatements _ _ hc1 (hacc.add hwf))
+  intro r p3 ⟨hc3, k, he⟩
+  have h4 := he.of_add
+  rw [hname, hlen] at h4
+  exact ⟨hc3, k, h4⟩
+
+theorem elifsW {f : Nat} (ih : SpecsW f) (acc : Node) (p : P) (hc : Cur p) (hacc : KW acc) :
+    Sat (elifs (f+1) acc) p (fun r p' => Cur p' ∧ ∃ e, Ext acc r e ∧ ifShape e = true) ET := by
+  rw [elifs]
+  wpr (isNotEndAndToken_spec _ hc)
+  rintro b _ rfl
+  split
+  · wpr (skipToken_spec _ hc)
+    intro _ p1 ⟨hc1, _⟩
+    wpr (ih.guardAndStatements _ _ hc1 hacc)
+    intro s p2 ⟨hc2, k, hs2⟩
+    wlast (ih.elifs _ _ hc2 hs2.kw)
+    intro r p3 ⟨hc3, e, he, hsh⟩
+    exact ⟨hc3, _, hs2.trans he, by simp [ifShape, hsh]⟩
+  · exact Sat.pure ⟨hc, [], Ext.refl hacc, rfl⟩
+
+theorem shapeOk_infix {nm : String} {a b : Sig} (h : kindOf nm = .binary ∨ kindOf nm = .plusminus) :
+    shapeOk nm [a, b] = true := by
+  rcases h with h | h <;> simp [shapeOk, h]
+
+theorem compat_infix {k : Kind} {x : Nud} (h : kindCompat k x .infix = true) : k = .binary ∨ k = .plusminus := by
+  cases k <;> cases x <;> simp_all [kindCompat]
+
+theorem loopLedW {f : Nat} (ih : SpecsW f) (rbp : Nat) (left : Node) (p : P) (hc : Cur p) (hl : ResW left) :
+    Sat (loopLed (f+1) rbp left) p (fun r p' => Cur p' ∧ ResW r) ET := by
+  rw [loopLed]
+  wpr (cur_spec hc)
+  rintro nx _ ⟨rfl, hnx, hfx⟩
+  split
+  · split
+    · obtain ⟨lt, hlt⟩ := hl.1
+      wpr (tokOf_spec _ hlt)
+      rintro _ _ ⟨rfl, rfl⟩
+      obtain ⟨nt, hnt⟩ := hfx.tok
+      wpr (tokOf_spec _ hnt)
+      rintro _ _ ⟨rfl, rfl⟩
+      split
+      · exact Sat.pure ⟨hc, hl⟩
+      · exact Sat.throw trivial
+    · next hled =>
+      wpr (advance_spec _)
+      intro post p1 ⟨hc1, _⟩
+      wpr (ih.run _ _ hc1)
+      intro right p2 ⟨hc2, hr2⟩
+      have hfx' := hfx.addMeta post
+      have hres : ResW (((nx.addMeta post).add (some left)).add (some right)) := by
+        obtain ⟨t, ht⟩ := hfx'.tok
+        refine ⟨⟨t, by simp [ht]⟩, (wf_iff _).2 ⟨(hfx'.KW.add hl.2.1).add hr2.2.1, ?_⟩, ?_⟩
+        · have hk : kindOf nx.name = .binary ∨ kindOf nx.name = .plusminus := by
+            rcases hfx.compat with h | h
+            · cases hl' : nx.led
+              · exact absurd hl' hled
+              · rw [hl'] at h; exact compat_infix h
+            · exact absurd h.2 hled
+          simp only [Node.add_name, Node.addMeta_name, sigs_add, sigs_addMeta, hfx.sigs, List.nil_append,
+            List.cons_append]
+          exact shapeOk_infix hk
+        · exact hfx'.inOk.of_eq (by simp) (by simp)
+      wlast (ih.loopLed _ _ _ hc2 hres)
+      intro r p3 h3
+      exact h3
+  · exact Sat.pure ⟨hc, hl⟩
+
+theorem runW {f : Nat} (ih : SpecsW f) (rbp : Nat) (p : P) (hc : Cur p) :
+    Sat (run (f+1) rbp) p (fun r p' => Cur p' ∧ ResW r) ET := by
+  rw [run]
+  sget
+  wpr (advance_spec _)
+  intro post p1 ⟨hc1, _⟩
+  obtain ⟨hi, n, hn⟩ := hc
+  simp only [hn]
+  have hf := (hi n hn).addMeta post
+  split
+  · obtain ⟨t, ht⟩ := hf.tok
+    wpr (tokOf_spec _ ht)
+    rintro _ _ ⟨rfl, rfl⟩
+    exact Sat.throw trivial
+  · next hnud =>
+    wpr (ih.nudOf _ _ hc1 hf hnud)
+    intro left p2 ⟨hc2, hr2⟩
+    wlast (ih.loopLed _ _ _ hc2 hr2)
+    intro r p3 h3
+    exact h3
+
+end Ecal.Parse
